@@ -143,6 +143,14 @@ func genHistory(g *common.Gen, r *common.Rand) {
 
 	for k := 0; k < nops; k++ {
 		step()
+		// forget Interests that have timed out by now (keep a few, stale names are interesting too)
+		live := pend[:0]
+		for _, p := range pend {
+			if p.fire > t || r.Chance(1, 8) {
+				live = append(live, p)
+			}
+		}
+		pend = live
 		switch x := r.Intn(100); {
 		case x < 36: // express
 			var final, node enc.Name
@@ -279,6 +287,12 @@ func genHistory(g *common.Gen, r *common.Rand) {
 				p = common.Pick(r, attached)
 			}
 			g.Op("detach %s @%d", common.NameText(p), t)
+			for i, a := range attached {
+				if a.Equal(p) {
+					attached = append(attached[:i:i], attached[i+1:]...)
+					break
+				}
+			}
 			g.Stat("op-detach")
 		case x < 91: // incoming interest
 			name := uni(1, 3)
@@ -301,7 +315,12 @@ func genHistory(g *common.Gen, r *common.Rand) {
 			label := "r" + strconv.Itoa(nRx)
 			nRx++
 			g.Op("interest %s %s %s %s @%d", label, common.NameText(name), life, tok, t)
-			rxs = append(rxs, gRx{label, t + lifeUs})
+			for _, a := range attached {
+				if a.IsPrefix(name) {
+					rxs = append(rxs, gRx{label, t + lifeUs})
+					break
+				}
+			}
 			g.Stat("op-interest")
 		case x < 97: // reply
 			if len(rxs) == 0 {
